@@ -1030,12 +1030,7 @@ func (s *Session) input(seg *segment) error {
 
 		// Register server per user metrics.
 		if !s.isClient {
-			if s.uploadBytes == nil {
-				s.uploadBytes = metrics.RegisterMetric(fmt.Sprintf(metrics.UserMetricGroupFormat, (*s.block.Load()).BlockContext().UserName), metrics.UserMetricUploadBytes, metrics.COUNTER_TIME_SERIES)
-			}
-			if s.downloadBytes == nil {
-				s.downloadBytes = metrics.RegisterMetric(fmt.Sprintf(metrics.UserMetricGroupFormat, (*s.block.Load()).BlockContext().UserName), metrics.UserMetricDownloadBytes, metrics.COUNTER_TIME_SERIES)
-			}
+			s.registerServerUserMetrics((*s.block.Load()).BlockContext().UserName)
 		}
 	}
 
@@ -1060,6 +1055,21 @@ func (s *Session) input(seg *segment) error {
 		return s.inputClose(seg)
 	}
 	return nil
+}
+
+// registerServerUserMetrics sets the per user traffic counters of a server session.
+// The underlay calls it before the session is handed to the application, so that
+// application Read() and Write() never race with the registration.
+func (s *Session) registerServerUserMetrics(userName string) {
+	if s.isClient || userName == "" {
+		return
+	}
+	if s.uploadBytes == nil {
+		s.uploadBytes = metrics.RegisterMetric(fmt.Sprintf(metrics.UserMetricGroupFormat, userName), metrics.UserMetricUploadBytes, metrics.COUNTER_TIME_SERIES)
+	}
+	if s.downloadBytes == nil {
+		s.downloadBytes = metrics.RegisterMetric(fmt.Sprintf(metrics.UserMetricGroupFormat, userName), metrics.UserMetricDownloadBytes, metrics.COUNTER_TIME_SERIES)
+	}
 }
 
 func (s *Session) inputData(seg *segment) error {
